@@ -48,6 +48,10 @@ func ValidateGenesis(data *GenesisState, ac address.Codec) error {
 		return err
 	}
 
+	if len(data.Validators) > int(data.Params.MaxValidators) {
+		return ErrMaxValidatorsExceeded
+	}
+
 	if data.NextL2Sequence < DefaultL2SequenceStart {
 		return ErrInvalidSequence
 	}
